@@ -228,6 +228,7 @@ fn near_miss(t: &str, which: usize) -> String {
         2 => format!("\"{}{}\"", t, &t[n - 1..]),
         3 => format!("\"{}{}\"", t[..1].to_uppercase(), &t[1..]),
         4 => format!("\"{} \"", t),
+        _ if n > 200 => format!("\"{}\" + \"{}\"", &t[..n / 2], &t[n / 2 + 1..]),
         _ => format!("String.from_utf8([{}])", t.bytes().enumerate().map(|(i, b)| if i == n / 2 { (b ^ 1).to_string() } else { b.to_string() }).collect::<Vec<_>>().join(", ")),
     }
 }
@@ -240,11 +241,13 @@ fn run_language(bytes: &[u8]) -> Result<usize, (String, String)> {
     let churn = 50 + rd.below(3000);
     // contents: short, or long enough for any word-at-a-time path of the hash function (>= 32 bytes),
     // at lengths around multiples of 8
-    let len = *rd.pick(&[3usize, 3, 8, 15, 31, 32, 33, 39, 40, 47, 64, 100]);
+    let len = *rd.pick(&[3usize, 3, 8, 15, 31, 32, 33, 39, 40, 47, 64, 100, 255, 256, 1023, 1024, 1025, 1030, 2000, 4100]);
     let salt = rd.below(26);
     let t: String = (0..len).map(|i| (b'a' + ((i * 7 + salt + i / 26) % 26) as u8) as char).collect();
-    let n1 = ROUTE_NAMES[rd.below(ROUTE_NAMES.len())];
-    let n2 = ROUTE_NAMES[rd.below(ROUTE_NAMES.len())];
+    // (a literal vector has at most 255 elements: the byte-list routes are for short contents)
+    let routes: Vec<&str> = ROUTE_NAMES.iter().copied().filter(|r| len <= 200 || !matches!(*r, "from_utf8" | "from_code_points" | "from_ascii")).collect();
+    let n1 = routes[rd.below(routes.len())];
+    let n2 = routes[rd.below(routes.len())];
     let r1 = (n1, route_expr(n1, &t, rd.below(8)));
     let r2 = (n2, route_expr(n2, &t, rd.below(8)));
     let mut miss = near_miss(&t, rd.below(6));
@@ -352,7 +355,7 @@ impl Property for C11 {
     }
 
     fn rule(&self) -> String {
-        "cases: (table_exhaustive) every history of up to 6 intern/lookup operations over 4 texts under 3 hash functions (all texts one hash; shared low bits; the real hash) — thorough enumerates all of them, quick those whose last two operations are the simplest; (table_random) histories of up to 3x each growth point (4..4096 slots) on the interpreter's own intern-table type driven through a hook with harness-chosen hash functions: identical full hashes, identical low k bits (long probe chains, wrap-around), real hashes with the low 12 bits cleared, real hashes; (api) 200-3200 calls of Vm::new_gc_obj_string over multi-byte texts, revisits, and texts found by search to collide in the low 12 bits of the real hash; (language) the same contents (3-100 bytes, lengths around multiples of 8 and beyond 32) built by two of 16 routes (literal, escapes, +, interpolation, slices and split pieces that start at every byte offset 0-7 inside their source string, replace, String.from, from_utf8, from_code_points, from_ascii, iteration) with 50-3000 strings of churn in between and a one-byte near miss, compared with ==, used as map keys alone and inside tuples, and names (global, method, field, module attribute) resolved across five separately compiled snippets on one interpreter. Oracle: intern-set model keyed by (hash, bytes): same key <=> same entry, new key <=> new distinct entry, every entry still found after every growth; pointer identity <=> byte equality at the API; outputs known by construction at language level. Non-trivial: the history crosses a growth with a collision chain of >=3 entries, or any api/language case; distinct by the case bytes.".into()
+        "cases: (table_exhaustive) every history of up to 6 intern/lookup operations over 4 texts under 3 hash functions (all texts one hash; shared low bits; the real hash) — thorough enumerates all of them, quick those whose last two operations are the simplest; (table_random) histories of up to 3x each growth point (4..4096 slots) on the interpreter's own intern-table type driven through a hook with harness-chosen hash functions: identical full hashes, identical low k bits (long probe chains, wrap-around), real hashes with the low 12 bits cleared, real hashes; (api) 200-3200 calls of Vm::new_gc_obj_string over multi-byte texts, revisits, and texts found by search to collide in the low 12 bits of the real hash; (language) the same contents (3-4100 bytes, lengths around multiples of 8, beyond 32, and around 256, 1024 and 4096) built by two of 16 routes (literal, escapes, +, interpolation, slices and split pieces that start at every byte offset 0-7 inside their source string, replace, String.from, from_utf8, from_code_points, from_ascii, iteration) with 50-3000 strings of churn in between and a one-byte near miss, compared with ==, used as map keys alone and inside tuples, and names (global, method, field, module attribute) resolved across five separately compiled snippets on one interpreter. Oracle: intern-set model keyed by (hash, bytes): same key <=> same entry, new key <=> new distinct entry, every entry still found after every growth; pointer identity <=> byte equality at the API; outputs known by construction at language level. Non-trivial: the history crosses a growth with a collision chain of >=3 entries, or any api/language case; distinct by the case bytes.".into()
     }
 
     fn render(&self, family: &str, bytes: &[u8]) -> String {
